@@ -37,7 +37,7 @@ from bounded import harness
 BOUNDS = ('2-4 threads, each a program of 1-3 actions out of 8 configurable calls (3 scopes, '
           'with/without caller-supplied arguments), operative_config_str reads and 5 uses of 5 '
           'singletons (one whose constructor uses another singleton). Schedules at gin-statement '
-          'granularity: 54 lock-boundary/constructor-window schedules; 18 sweeps (14 two-thread '
+          'granularity: 50 lock-boundary/constructor-window schedules; 18 sweeps (14 two-thread '
           'single-preemption, 4 with another thread parked at a lock boundary) over every '
           'preemption point of the swept thread (thorough) or ~90 evenly spaced points per sweep '
           '(quick); 120/6000 sampled schedules of <= 6 segments. Sequential singleton histories: '
